@@ -243,6 +243,16 @@ def execute(case):
         mcmc.network = net
         if case.get("limit", -1) >= 0:
             mcmc.convergence_limit = case["limit"]
+    if case.get("pre_abort") is not None:
+        # crash point: a rewiring of the SAME network on this object was abandoned part-way (Ctrl-C while a swap is evaluated);
+        # the caller keeps the object and rewires again: the input network must be as it was and the judged run a valid one
+        from ..crash import abort_at
+        try:
+            with watchdog(5):
+                tr["pre_abort_outcome"] = Oracle().run_seeded(case.get("pre_abort_seed", 5),
+                                                              lambda: abort_at(mcmc.rewire, 40 + int(case["pre_abort"] * 4000)), grid=GRIDW)
+        except (Exception, Timeout):
+            pass
     orc = Oracle()
     orc.zero_draws = case.get("zero_draws", 0)
     steps = []
